@@ -36,10 +36,19 @@ void *memmove(void *, const void *, size_t);
 void *memset(void *, int, size_t);
 #define VERIF_MEMCPY(d, s, n) memcpy((d), (s), (size_t)(n))
 #define VERIF_MEMMOVE(d, s, n) memmove((d), (s), (size_t)(n))
-#define VERIF_MEMSET(d, c, n) memset((d), (int)(c), (size_t)(n))
+#define VERIF_MEMSET(d, c, n) verif_memset_v((d), (int)(c), (size_t)(n))
 /* non-literal sizes: byte loops. CBMC's built-in memset/memcpy with a symbolic length is imprecise on typed
  * (struct) objects -- measured: memset(p, 0, n<<4) left pointer fields of a struct array non-zero. */
-static inline void *verif_memset_v(void *d, int c, size_t n) { for (size_t i = 0; i < n; i++) ((uint8_t *)d)[i] = (uint8_t)c; return d; }
+static inline void *verif_memset_v(void *d, int c, size_t n) {
+  size_t i = 0;
+#ifdef __CPROVER__
+  /* zero fill of 8-byte aligned storage word by word: a field zeroed byte by byte (or by CBMC's built-in memset) is no longer a
+   * constant for CBMC's constant propagation (measured: every later null test / CAS / counter comparison on such a field became
+   * a symbolic branch and the batch processor queries exploded) */
+  if (c == 0 && (__CPROVER_POINTER_OFFSET(d) & 7) == 0) for (; i + 8 <= n; i += 8) *(uint64_t *)((uint8_t *)d + i) = 0;
+#endif
+  for (; i < n; i++) ((uint8_t *)d)[i] = (uint8_t)c;
+  return d; }
 static inline void *verif_memcpy_v(void *d, const void *s, size_t n) { for (size_t i = 0; i < n; i++) ((uint8_t *)d)[i] = ((const uint8_t *)s)[i]; return d; }
 static inline void *verif_memmove_v(void *d, const void *s, size_t n) {
   if ((uintptr_t)d <= (uintptr_t)s) for (size_t i = 0; i < n; i++) ((uint8_t *)d)[i] = ((const uint8_t *)s)[i];
